@@ -217,7 +217,7 @@ def main():
         return
     engine.build(['asan'])
     quick = ck.tier == 'quick'
-    core = ['F01', 'F03', 'F05', 'F06', 'F07', 'F12']
+    core = ['F01', 'F03', 'F05', 'F06', 'F07', 'F12', 'F23']
     fam_F = [s.sid for s in S.family_F()]
     fam_O = [s.sid for s in S.family_one_option()]
     # (schema ids, ctx flag list, N) - smallest bound first
@@ -266,7 +266,7 @@ def main():
         if not agg['complete']:
             ck.cov['exhaustive'] = False
     # E1 with a reduced alphabet, deeper: repeated titles, re-opened sections, a section named like the top-level context
-    deep = ['F05', 'F06', 'F07', 'F08', 'F16', 'F18', 'F19', 'F20', 'F21', 'F22']
+    deep = ['F05', 'F06', 'F07', 'F08', 'F16', 'F18', 'F19', 'F20', 'F21', 'F22', 'F23']
     for N in ([8, 10] if quick else [10, 11, 12]):
         shards = []
         for sid in deep:
